@@ -133,6 +133,11 @@ impl Instrumented for RealProblem {
         match self.kind {
             0 => x.iter().map(|v| v * v).sum(),
             2 => x.iter().map(|v| (v * 2.0).floor().abs()).sum(),
+            3 => {
+                // walled sphere: infeasible (+inf) outside the box of a quarter of the domain width around the origin
+                let r = 0.25 * (self.hi - self.lo);
+                if x.iter().any(|v| v.abs() > r) { f64::INFINITY } else { x.iter().map(|v| v * v).sum() }
+            }
             _ => x.iter().enumerate().map(|(i, v)| (v - 0.25 * (i as f64 + 1.0)).abs() + (3.0 * v).sin().abs() * 0.5).sum(),
         }
     }
